@@ -178,6 +178,20 @@ func c17Run(c *caseCtx) (res caseResult) {
 				}
 			}()
 		}
+		// one sender bursts: the stream writer then takes batches far beyond its nominal batch size
+		burstN := 4000 + r.Intn(8000)
+		burstSender := actor.NewPID(a1, "sender/burst")
+		wg.Add(1)
+		go func() {
+			defer wg.Done()
+			for i := 0; i < burstN; i++ {
+				var sp *actor.PID
+				if i%2 == 0 {
+					sp = burstSender
+				}
+				n1.eng.SendWithSender(target(i%nT), &remote.TestMessage{Data: []byte(fmt.Sprintf("g%d-b%d-%d", g, i%2, i))}, sp)
+			}
+		}()
 		// request/response across the engines
 		nReq := 1 + r.Intn(6)
 		reqErr := make([]string, nReq)
@@ -228,6 +242,8 @@ func c17Run(c *caseCtx) (res caseResult) {
 		// judge this generation
 		prefix := fmt.Sprintf("g%d-", g)
 		total := 0
+		burstGot := 0
+		lastBurst := make([]int, nT)
 		for t := 0; t < nT; t++ {
 			last := map[int]int{}
 			seen := map[string]int{}
@@ -236,6 +252,30 @@ func c17Run(c *caseCtx) (res caseResult) {
 					continue
 				}
 				var s, i int
+				if strings.HasPrefix(x.data[len(prefix):], "b") {
+					var even int
+					fmt.Sscanf(x.data[len(prefix):], "b%d-%d", &even, &i)
+					seen[x.data]++
+					burstGot++
+					if seen[x.data] > 1 {
+						res.violate("%s: burst message %s delivered %d times", phase, x.data, seen[x.data])
+					}
+					if i%nT != t {
+						res.violate("%s: burst message %s arrived at target %d", phase, x.data, t)
+					}
+					if i < lastBurst[t] {
+						res.violate("%s: target %d received burst message %d after %d (order)", phase, t, i, lastBurst[t])
+					}
+					lastBurst[t] = i
+					want := ""
+					if even == 0 {
+						want = pidStr(burstSender)
+					}
+					if x.sender != want {
+						res.violate("%s: burst message %s arrived with sender %q, sent with %q", phase, x.data, x.sender, want)
+					}
+					continue
+				}
 				fmt.Sscanf(x.data[len(prefix):], "s%d-%d", &s, &i)
 				seen[x.data]++
 				total++
@@ -257,7 +297,10 @@ func c17Run(c *caseCtx) (res caseResult) {
 		if total != nS*per {
 			res.violate("%s: %d of %d messages delivered although the connection stayed up and the final markers (sent after them) arrived", phase, total, nS*per)
 		}
-		res.count("messages_delivered_up", int64(total))
+		if burstGot != burstN {
+			res.violate("%s: %d of %d burst messages delivered although the connection stayed up and the final markers arrived", phase, burstGot, burstN)
+		}
+		res.count("messages_delivered_up", int64(total+burstGot))
 		res.count("cross_engine_requests", int64(nReq))
 		return res.Verdict != vViolated
 	}
